@@ -13,9 +13,54 @@ def run(tier, vd):
             return True
         return False
     canary_check(vd, "IngressTrace", cf, mut, "I1", "c11.I1", max_runs=200)
+    mcast_model(tier, vd)
     vd.cov["exhaustive"] = True
     vd.assumptions += ["Ethernet and raw-IP media (IEEE 802.15.4 PAN filtering is exercised in the 6LoWPAN world)", "sockets: one TCP listener, one bound UDP socket; ICMP / raw / DNS sockets and joined groups other than the default ones are not in the table",
                        "loopback and the interface's own address count as unicast sources"]
+
+
+def mcast_model(tier, vd):
+    """Beyond the listed properties: the group-membership machine (Mcast.tla) model checked, and its behaviours replayed
+    on a real interface.  Nothing here can raise a VIOLATION: no listed property speaks about group reports."""
+    import json, os
+    INV = ["Bounded", "NotMember"]
+    c = {"Groups": '{"g1", "g2", "g3"}', "Cap": 3, "MaxT": 8, "Resp": 12, "MaxEvents": 6 if tier == "quick" else 7, "Tokens": "{0, 1, 9}"}
+    rf = os.path.join(OUT, "sched", "c11.mcast.replay")
+    text = cfg_text(c, INV + ["Export"], properties=["JoinReported", "LeaveAnnounced"], view="View")
+    r = tlc("Mcast", write_cfg("Mcast_c11", text), workers=8, tag="c11.mcast", timeout=1500, tagged_file=rf)
+    if r.violated:
+        raise ToolError("Mcast model violates %s (log %s)" % (r.violated, r.log))
+    vd.add_model("Mcast groups=3 cap=3 events<=%d (not a listed property)" % c["MaxEvents"], r, "IGMPv2 host side: group table with swap-remove order, join / leave, single report state, multicast_egress per poll with device tokens; invariants " + ",".join(INV) + ", action properties JoinReported, LeaveAnnounced")
+    # the observation: a general query is not always answered for every member (single report state, walk by index)
+    co = dict(c, Groups='{"g1", "g2"}', MaxT=14, MaxEvents=22, Tokens="{9}")
+    ro = tlc("Mcast", write_cfg("Mcast_obs", cfg_text(co, ["GeneralAnswered"], view="View")), workers=4, tag="c11.mcast.obs", timeout=600, collect=())
+    vd.cov["models"].append({"model": "Mcast observation GeneralAnswered (expected to fail: documented behaviour of the code, no listed property)", "violated": ro.violated})
+    beh = [json.loads(l)["v"] for l in open(rf)]
+    import random as _rnd
+    if len(beh) > (4000 if tier == "quick" else 30000):
+        beh = _rnd.Random(seed()).sample(beh, 4000 if tier == "quick" else 30000)
+    exe = build_harness()
+    files = chunked_replay(exe, ["mcast-replay", "--resp", c["Resp"]], beh, "c11.mcast", nchunks=4)
+    compared = different = panics = 0
+    first = None
+    for tf in files:
+        for e in read_ndjson(tf):
+            if e.get("ev") == "panic":
+                panics += 1
+            if e.get("ev") == "poll":
+                compared += 1
+                got = [{"m": o["m"], "g": o["g"]} for o in e["out"]]
+                if got != e["model"] or any(not o.get("wf", True) for o in e["out"]):
+                    different += 1
+                    first = first or e
+    vd.cov.setdefault("drift_detail", {})["mcast_polls_vs_Mcast_model"] = {"compared": compared, "different": different, "panics": panics}
+    vd.cov["model_drift"] = vd.cov.get("model_drift", 0) + different
+    if first:
+        vd.cov["samples"].append({"kind": "first multicast poll that differs from Mcast.tla", "events": [first]})
+    if panics:
+        raise ToolError("mcast replay: the interface panicked on a model behaviour (%d)" % panics)
+    if compared == 0:
+        raise ToolError("mcast replay compared nothing")
 
 
 def replay(obj, vd):
